@@ -286,20 +286,16 @@ def parseIntImpl (args : List Value) : Res Value := do
 
 /-! ### bytes.go, on the length of the buffer (the capsule's content plays no role) -/
 
-/-- `BytesSliceFunc`: `.ok (offset, end)` are the bounds of the sub-slice.  `end :=
-offset + length` is Go `int` arithmetic: it wraps around at 2^63. -/
-def wrapInt64 (i : Int) : Int := (i + 9223372036854775808) % 18446744073709551616 - 9223372036854775808
-
+/-- `BytesSliceFunc`: `.ok (offset, end)` are the bounds of the sub-slice.  The range
+check is `length > len - offset` (which cannot overflow, `offset ≤ len` having been
+established), so `offset + length ≤ len` when the slice expression is reached. -/
 def bytesSliceImpl (bufLen : Nat) (offsetV lengthV : Value) : Res (Int × Int) := do
   let offset ← fromCtyInt offsetV
   let length ← fromCtyInt lengthV
   if offset < 0 ∨ length < 0 then .err "offset and length must be non-negative"
   else if offset > bufLen then .err "offset is greater than total buffer length"
-  else
-    let e := wrapInt64 (offset + length)
-    if e > bufLen then .err "offset + length is greater than total buffer length"
-    else if e < offset then .panic "slice bounds out of range"
-    else pure (offset, e)
+  else if length > (bufLen : Int) - offset then .err "offset + length is greater than total buffer length"
+  else pure (offset, offset + length)
 
 /-- dispatch by the name the harness uses -/
 def numImpl (name : String) : Option (List Value → Res Value) :=
